@@ -5,6 +5,7 @@
 #pragma once
 #include "guard.h"
 #include "vf.h"
+#include <optional>
 #include <string>
 #include <vector>
 
@@ -107,6 +108,16 @@ namespace c15
         std::vector<std::string> executed;
 
         RefEditor(unsigned cap_, unsigned H_) : cap(cap_), H(H_) {}
+        void reset()
+        {
+            line.clear();
+            cur = histpos = 0;
+            hist.clear();
+            ps = GROUND;
+            pending = 0;
+            ctrlc_in_pair = false;
+            executed.clear();
+        }
         bool ground() const { return ps == GROUND; }
         void load()
         {
@@ -226,14 +237,37 @@ namespace c15
         {
             W = 100
         };
-        std::vector<std::string> rows;
+        std::vector<std::string> rows; // pool: rows[0..nrows) are live, the others are blank and reused
+        std::vector<int> hi;           // hi[i]: every cell of row i at a column >= hi[i] is blank
+        int nrows = 1;
         int r = 0, c = 0;
         int st = 0;
         int param = 0;
         bool have_param = false;
         std::string unmodelled; // first byte sequence the model does not know
         bool overflow = false;
-        Screen() { rows.emplace_back((size_t)W, ' '); }
+        Screen()
+        {
+            rows.emplace_back((size_t)W, ' ');
+            hi.push_back(0);
+        }
+        void blank(int i, int from)
+        {
+            for (int k = from; k < hi[i]; k++)
+                rows[i][k] = ' ';
+            if (from < hi[i])
+                hi[i] = from;
+        }
+        void reset()
+        {
+            for (int i = 0; i < nrows; i++)
+                blank(i, 0);
+            nrows = 1;
+            r = c = st = param = 0;
+            have_param = false;
+            unmodelled.clear();
+            overflow = false;
+        }
         void flag(const char *what, unsigned char b)
         {
             if (unmodelled.empty())
@@ -255,8 +289,15 @@ namespace c15
                 else if (b == '\n')
                 {
                     r++;
-                    if ((size_t)r == rows.size())
-                        rows.emplace_back((size_t)W, ' ');
+                    if (r == nrows)
+                    {
+                        if ((size_t)nrows == rows.size())
+                        {
+                            rows.emplace_back((size_t)W, ' ');
+                            hi.push_back(0);
+                        }
+                        nrows++;
+                    }
                 }
                 else if (b == 8)
                 {
@@ -268,7 +309,11 @@ namespace c15
                     if (c >= W - 1)
                         overflow = true;
                     else
+                    {
                         rows[r][c++] = (char)b;
+                        if (c > hi[r])
+                            hi[r] = c;
+                    }
                 }
                 else if (b == 0 || b == 7)
                     ; // NUL, BEL: no effect on what the screen shows
@@ -306,7 +351,7 @@ namespace c15
                         r = r - n < 0 ? 0 : r - n;
                         break;
                     case 'B':
-                        r = r + n >= (int)rows.size() ? (int)rows.size() - 1 : r + n;
+                        r = r + n >= nrows ? nrows - 1 : r + n;
                         break;
                     case 'C':
                         c = c + n > W - 1 ? W - 1 : c + n;
@@ -317,11 +362,17 @@ namespace c15
                     case 'K':
                     {
                         int mode = have_param ? param : 0;
-                        int from = mode == 0 ? c : 0, to = mode == 1 ? c + 1 : W;
-                        if (mode > 2)
+                        if (mode == 0)
+                            blank(r, c); // cursor .. end of line
+                        else if (mode == 2)
+                            blank(r, 0); // whole line
+                        else if (mode == 1)
+                        { // start of line .. cursor
+                            for (int k = 0; k <= c && k < hi[r]; k++)
+                                rows[r][k] = ' ';
+                        }
+                        else
                             flag("CSI K mode", b);
-                        for (int i = from; i < to && i < W; i++)
-                            rows[r][i] = ' ';
                         break;
                     }
                     default:
@@ -338,7 +389,7 @@ namespace c15
                 s.pop_back();
             return s;
         }
-        // row i == text followed by blanks only
+        // row i == a ++ b followed by blanks only
         bool row_is(int i, const char *a, size_t na, const std::string &b) const
         {
             const std::string &row = rows[i];
@@ -346,7 +397,7 @@ namespace c15
                 return false;
             if (memcmp(row.data(), a, na) != 0 || memcmp(row.data() + na, b.data(), b.size()) != 0)
                 return false;
-            for (size_t k = na + b.size(); k < row.size(); k++)
+            for (size_t k = na + b.size(); k < (size_t)hi[i]; k++)
                 if (row[k] != ' ')
                     return false;
             return true;
@@ -402,7 +453,7 @@ namespace c15
     {
         Cfg cfg;
         Sink sink;
-        Term term;
+        std::optional<Term> term; // the igris objects and their exact buffers are created anew for every sequence
         RefEditor ref;
         Screen scr;
         size_t replayed = 0;
@@ -411,7 +462,7 @@ namespace c15
         const char *last_nl = "none"; // what the reference did with the most recent CR/LF byte before the current one
         uint64_t steps = 0;
 
-        explicit Runner(const Cfg &c) : cfg(c), term(c, &sink), ref(c.cap, c.H) {}
+        explicit Runner(const Cfg &c) : cfg(c), ref(c.cap, c.H) {}
 
         std::string witness() const
         {
@@ -432,7 +483,7 @@ namespace c15
         }
         void check_bounds(Act a)
         {
-            unsigned len = term.len(), cur = term.cursor();
+            unsigned len = term->len(), cur = term->cursor();
             if (!(cur <= len && len < cfg.cap))
             {
                 char d[96];
@@ -451,10 +502,10 @@ namespace c15
             const char *pt = cfg.prompt_text();
             size_t pl = strlen(pt);
             int wantcol = (int)pl + (int)ref.cur;
-            if (scr.r != (int)scr.rows.size() - 1 || !scr.row_is(scr.r, pt, pl, ref.line))
+            if (scr.r != scr.nrows - 1 || !scr.row_is(scr.r, pt, pl, ref.line))
             {
                 char d[400];
-                snprintf(d, sizeof d, "screen row %d of %zu shows \"%s\", reference \"%s%s\"", scr.r, scr.rows.size(), scr.row_trimmed(scr.r).c_str(), pt, ref.line.c_str());
+                snprintf(d, sizeof d, "screen row %d of %d shows \"%s\", reference \"%s%s\"", scr.r, scr.nrows, scr.row_trimmed(scr.r).c_str(), pt, ref.line.c_str());
                 bad("screen:row", a, cursor_mid, false, d);
             }
             VF_OK("screen row == prompt + reference line");
@@ -466,11 +517,24 @@ namespace c15
             }
             VF_OK("screen cursor == prompt + reference cursor");
         }
+        // (re)start: fresh terminal, empty reference, blank screen; the harness-side containers keep their storage
         void start()
         {
+            term.reset();
+            sink.out.clear();
+            sink.exec.clear();
+            sink.sigints = 0;
+            ref.reset();
+            scr.reset();
+            replayed = 0;
+            fed.clear();
+            prev = A_START;
+            last_nl = "none";
+            steps = 0;
+            term.emplace(cfg, &sink);
             if (vf::verbose())
                 printf("  terminal case: impl=%s cap=%u hist=%u prompt=\"%s\"\n", Term::impl(), cfg.cap, cfg.H, cfg.prompt_text());
-            term.key(-1);
+            term->key(-1);
             check_bounds(A_START);
             check_screen(A_START, false);
         }
@@ -482,7 +546,7 @@ namespace c15
             if (vf::verbose())
                 printf("    byte %s%s\n", show_bytes(std::string(1, (char)b)).c_str(), flush ? "" : " (no flush)");
             bool cursor_mid = ref.cur < ref.line.size();
-            term.key(b);
+            term->key(b);
             Act a = ref.feed(b);
             count_act(a);
             check_bounds(a);
@@ -507,14 +571,14 @@ namespace c15
                 VF_OK("newline directly after a swallowed half is fresh");
             if (flush)
             {
-                term.key(-1);
+                term->key(-1);
                 check_bounds(a);
                 if (ref.ground())
                 {
-                    unsigned len = term.len(), cur = term.cursor();
+                    unsigned len = term->len(), cur = term->cursor();
                     bool recall = a == A_UP || a == A_DOWN;
-                    if (len != ref.line.size() || memcmp(term.data(), ref.line.data(), len) != 0)
-                        bad(recall ? "history:recall" : "editor:line", a, cursor_mid, false, "line \"" + vf::esc(term.data(), len) + "\", reference \"" + ref.line + "\"");
+                    if (len != ref.line.size() || memcmp(term->data(), ref.line.data(), len) != 0)
+                        bad(recall ? "history:recall" : "editor:line", a, cursor_mid, false, "line \"" + vf::esc(term->data(), len) + "\", reference \"" + ref.line + "\"");
                     if (cur != ref.cur)
                     {
                         char d[96];
@@ -573,29 +637,31 @@ namespace c15
     // All sequences of exactly L keys over the first `nkeys` keys of the alphabet (every shorter sequence is a prefix
     // and the clauses are evaluated after every byte) x 4 capacities x 3 history depths.  One case = one
     // (configuration, prefix of L-3 keys) with all nkeys^3 continuations.
-    //   suite A: all 14 keys (12 whole keys + raw ESC + raw '[' so that sequences are also split/malformed), L = 5 / 6
-    //   suite B (thorough only): the 12 whole keys, L = 7
+    //   suite A: all 14 keys (12 whole keys + raw ESC + raw '[' so that sequences are also split/malformed), L = 5 / 6,
+    //            4 capacities x 3 history depths
+    //   suite B (thorough only): the 12 whole keys, L = 7, 4 capacities x 3 history depths
     static inline int lenA() { return vf::thorough() ? 6 : 5; }
     static inline uint64_t exhA_count() { return 12 * ipow(K_NKEYS, lenA() - SUFFIX); }
-    static inline uint64_t exhB_count() { return vf::thorough() ? 12 * ipow(12, 7 - SUFFIX) : 0; }
-    template <class Term> static void exh_run(uint64_t idx, unsigned nkeys, int L)
+    static inline uint64_t exhB_count() { return vf::thorough() ? 12 * ipow(K_ESC, 7 - SUFFIX) : 0; }
+    template <class Term> static void exh_run(uint64_t idx, unsigned nkeys, int L, unsigned nconfigs)
     {
         char tag[40];
         snprintf(tag, sizeof tag, "%s:vterm", Term::impl());
         vf::cls(tag);
-        unsigned cfgi = idx % 12;
-        idx /= 12;
+        unsigned cfgi = idx % nconfigs;
+        idx /= nconfigs;
+        const uint64_t pidx = idx;
         Cfg cfg{CAPS[cfgi % 4], HISTS[cfgi / 4], nullptr};
         uint8_t keys[16];
         for (int i = 0; i < L - SUFFIX; i++, idx /= nkeys)
             keys[i] = idx % nkeys;
         uint64_t nsuf = ipow(nkeys, SUFFIX), nontrivial = 0;
+        Runner<Term> R(cfg);
         for (uint64_t s = 0; s < nsuf; s++)
         {
             uint64_t t = s;
             for (int i = L - SUFFIX; i < L; i++, t /= nkeys)
                 keys[i] = t % nkeys;
-            Runner<Term> R(cfg);
             R.start();
             bool edits = false;
             for (int i = 0; i < L; i++)
@@ -606,14 +672,14 @@ namespace c15
                     break;
             }
             nontrivial += edits;
-            if (s == 1234 && cfgi == 5 && vf::want_sample())
+            if (s == 1234 && cfgi == 5 && (pidx == 100 || pidx == 150) && vf::want_sample())
                 vf::sample("exhaustive: %s", R.witness().c_str());
         }
         vf::count_bulk(nsuf, nontrivial);
         VF_OK("exhaustive batch (one configuration and prefix, all continuations of 3 keys)");
     }
-    template <class Term> static void exhA_run(uint64_t idx) { exh_run<Term>(idx, K_NKEYS, lenA()); }
-    template <class Term> static void exhB_run(uint64_t idx) { exh_run<Term>(idx, 12, 7); }
+    template <class Term> static void exhA_run(uint64_t idx) { exh_run<Term>(idx, K_NKEYS, lenA(), 12); }
+    template <class Term> static void exhB_run(uint64_t idx) { exh_run<Term>(idx, K_ESC, 7, 12); }
 
     // -------------------------------------------------------------- suite: random long sequences
     static inline uint64_t rnd_count() { return vf::thorough() ? 200000 : 2000; }
@@ -688,7 +754,7 @@ namespace c15
         }
         vf::count_case(vf::hash_bytes(all.data(), all.size(), vf::mix(cfg.cap * 16 + cfg.H, (cfg.prompt ? strlen(cfg.prompt) + 1 : 0) * 2 + noflush)), R.ref.executed.size() > 0);
         VF_MAX("lines executed in one random case", R.ref.executed.size());
-        if (vf::want_sample())
+        if (idx < 2 && vf::want_sample())
             vf::sample("random%s: %s", noflush ? " (no newdata(-1) between keys)" : "", R.witness().substr(0, 400).c_str());
     }
 
@@ -897,6 +963,7 @@ namespace c15
         vf::cls(tag);
         unsigned cap = CAPS[idx % 4];
         idx /= 4;
+        const uint64_t pidx = idx;
         int L = sl_len();
         uint8_t ops[16];
         for (int i = 0; i < L - SL_SUFFIX; i++, idx /= S_NOPS)
@@ -913,7 +980,7 @@ namespace c15
             for (int i = 0; i < L; i++)
                 R.op((SOp)ops[i]);
             R.op(S_GETLINE);
-            if (s == 777 && cap == 4 && vf::want_sample())
+            if (s == 777 && cap == 4 && pidx == 50 && vf::want_sample())
                 vf::sample("sline exhaustive: impl=%s cap=%u ops=%s", SL::impl(), cap, R.trace.c_str());
         }
         vf::count_bulk(nsuf, nsuf);
@@ -941,6 +1008,8 @@ namespace c15
         }
         R.op(S_GETLINE);
         vf::count_case(h, true);
+        if (idx == 0 && vf::want_sample())
+            vf::sample("sline random: impl=%s cap=%u ops=%s", SL::impl(), cap, R.trace.substr(0, 300).c_str());
     }
 
     static inline void require_common()
